@@ -1158,3 +1158,112 @@ def err_return_sticky(ctx):
                           'from the middle of whatever was interrupted (a half-read chunk with a zero-filled payload decodes "successfully")' % (f.loc(bad), sty, vname))
         else:
             ctx.ok(key, f.loc(0), '%d Err exit(s): each in the error arm or behind a store of %s::%s' % (len(errs), sty, vname))
+
+
+# --------------------------------------------------------------------------- WAIT-TARGET (C09) - round 12
+from lzlint.core import field_path, self_field_of, switch_edges, norm_cmp  # noqa: E402
+
+def _incremented_fields(f, prov):
+    out = set()
+    for bi, b in enumerate(f.blocks):
+        if b['cleanup']:
+            continue
+        for si, s in enumerate(b['stmts']):
+            if s['k'] == 'assign' and s['lhs']['l'] == 1 and s['lhs']['p']:
+                fp = field_path(s['lhs'])
+                if not fp or len(fp) != 1:
+                    continue
+                e = prov.rvalue(s['rv'], 0, '%d:%d' % (bi, si))
+                if e[0] == 'field' and e[2] == '0':
+                    e = e[1]
+                if e[0] == 'bin' and e[1].startswith('Add') and self_field_of(e[2]) == (fp[0],) and e[3][0] == 'const' and e[3][2] == 1:
+                    out.add(fp[0])
+    return out
+
+
+@rule('WAIT-TARGET', ['C09'], floor=2)
+def wait_target(ctx):
+    """`flush` of a multi-threaded writer waits until everything dispatched so far has been written: a loop that calls the
+    blocking drain while `written < target`. The loop can only end if the target is a number of units that really were
+    dispatched: the continue condition, normalised, is `written - D <= -1` where D is a value of the dispatch counter
+    (the field the dispatching method increments next to WorkStealingQueue::push) and `written` the counter the drain
+    increments. `written <= D` (or a target of D + k) waits for a sequence number that nobody holds; with an empty partial
+    buffer (input ending on a unit boundary, two flushes in a row) nothing is dispatched to make it true, the drain blocks
+    in recv() and - the coordinator keeping a Sender of its own - is never woken."""
+    F = ctx.facts
+    n = 0
+    for adt in sorted({f.self_adt for f in F.fns if f.self_adt and f.kind != 'closure' and
+                       any(c.is_('WorkStealingQueue::push') for _, _, c in f.calls())}):
+        if 'Writer' not in last_seg(adt):
+            continue
+        ms = [f for f in F.fns if f.self_adt == adt and f.kind != 'closure']
+        disp = set()
+        drain_fns = set()
+        written = set()
+        for f in ms:
+            prov = Prov(f)
+            if any(c.is_('WorkStealingQueue::push') for _, _, c in f.calls()):
+                disp |= _incremented_fields(f, prov)
+            if any(c.name in ('recv', 'try_recv') for _, _, c in f.calls()):
+                drain_fns.add(f.path)
+                written |= _incremented_fields(f, prov)
+        written -= disp
+        if not disp or not written:
+            ctx.anchor_missing('%s: dispatch counter / written counter' % last_seg(adt))
+            continue
+        for f in ms:
+            loops = f.loops()
+            if not loops:
+                continue
+            prov = Prov(f)
+            for h, body in loops.items():
+                if not any(any(g.path in drain_fns for g in F.resolve_callee(c)) for bi, t, c in f.calls() if bi in body):
+                    continue
+                # the loop's continue condition: a switch in the body with one edge leaving the loop, comparing a written counter
+                for sb in sorted(body):
+                    e = switch_edges(f, sb)
+                    if e is None or (e[0] in body) == (e[1] in body):
+                        continue
+                    cond = prov.operand(f.blocks[sb]['term']['discr'], 0, '%d:T' % sb)
+                    stay = e[1] in body
+                    nc = norm_cmp(cond, stay) if cond[0] in ('bin', 'un') else None
+                    if not nc or not any(self_field_of(x) and self_field_of(x)[0] in written for x in expr_walk(cond) if x[0] == 'field'):
+                        continue
+                    n += 1
+                    key = '%s:waits-only-for-dispatched-units' % f.key
+                    # linear form over {W (written counter), D (dispatch counter)}
+                    def lin(x):
+                        while x[0] == 'cast' or (x[0] == 'field' and x[1][0] == 'bin' and x[2] == '0'):
+                            x = x[2] if x[0] == 'cast' else x[1]
+                        if x[0] == 'const' and isinstance(x[2], int):
+                            return {1: x[2]}
+                        sf = self_field_of(x)
+                        if sf and len(sf) == 1 and sf[0] in written:
+                            return {'W': 1}
+                        if sf and len(sf) == 1 and sf[0] in disp:
+                            return {'D': 1}
+                        if x[0] == 'bin' and x[1].replace('WithOverflow', '') in ('Add', 'Sub'):
+                            a, b = lin(x[2]), lin(x[3])
+                            if a is None or b is None:
+                                return None
+                            sg = 1 if x[1].startswith('Add') else -1
+                            o = dict(a)
+                            for k, v in b.items():
+                                o[k] = o.get(k, 0) + sg * v
+                            return o
+                        return None
+                    la, lb = lin(nc[1]), lin(nc[2])
+                    ok = False
+                    if la is not None and lb is not None and nc[0] in ('Lt', 'Le'):
+                        d = dict(la)
+                        for k, v in lb.items():
+                            d[k] = d.get(k, 0) - v
+                        bound = (-1 if nc[0] == 'Lt' else 0) - d.get(1, 0)
+                        ok = d.get('W', 0) == 1 and d.get('D', 0) == -1 and bound <= -1
+                    if ok:
+                        ctx.ok(key, f.loc(sb), 'the drain loop continues while written < (a value of) the dispatch counter')
+                    else:
+                        ctx.violation(key, f.loc(sb), 'the blocking drain loop continues while %s: that is not `written < dispatched` - it can wait for a '
+                                      'sequence number no unit carries (nothing buffered at flush time), and recv() never returns' % expr_str(cond)[:90])
+    if n == 0:
+        ctx.anchor_missing('a drain loop bounded by the dispatch counter in a multi-threaded writer')
